@@ -79,10 +79,10 @@ theorem continuity_absent (B : Basis K) (tol : K) (htol : 0 < tol) (A C : List K
       (fun y hy => by have := hC y hy; linarith)
   unfold Basis.continuity
   have h1 : ¬ (B.periodic ≥ 0) := by rw [hper]; decide
-  have h2 : ¬ (x < B.start ∨ B.stop < x) := by
+  have h2 : ¬ (x < B.start - tol ∨ B.stop + tol < x) := by
     rintro (h | h)
-    · exact absurd hin.1 (not_le.mpr h)
-    · exact absurd hin.2 (not_le.mpr h)
+    · exact absurd hin.1 (not_le.mpr (by linarith))
+    · exact absurd hin.2 (not_le.mpr (by linarith))
   simp only [h1, h2, if_false, hhi, hlo, if_true]
 
 /-- `continuity` at the `i`-th value of a common separated list `u`, multiplicity `m[i] ≥ 0`. -/
